@@ -10,16 +10,16 @@ use crate::props::{sample_of, state_signature};
 use crate::simfs::Eff;
 
 pub const SPECS: &[PropSpec] = &[
-    PropSpec { id: "C02", level: "fault_enumeration", quick_runs: 4_000, thorough_runs: 8_000,
+    PropSpec { id: "C02", level: "fault_enumeration", quick_runs: 4_000, thorough_runs: 400,
         rule: "per seeded history (flush-per-call policies): crash points = every effect boundary at which the image or the in-flight op changes + torn-write offsets (thorough: all boundaries, every byte of writes <= 512 B, boundary-biased + 64 random offsets above; quick: a seeded sample of 40 points per history that always contains every create/set_len/unlink boundary); each image is recovered by the real open, matched against Exact(k) | Exact(k+1) | Partial(k, op), continued for 3-10 ops in lock-step with the model, cleanly restarted, and for recoveries that wrote, crashed a second time. Non-trivial: crash strictly inside a mutating call (torn write or after its first effect) with >= 1 completed call before. Distinct: hash of (effect class hit, in-flight op kind, torn-offset class, write offset/size class, matched state kind, files, policy).",
         assumptions: &["process-crash model: effects reach the OS in program order, user-space buffers are lost", "crash images are rebuilt from the effect trace of an uninterrupted execution (behaviour before the crash is by construction that of the fault-free run)"] },
-    PropSpec { id: "C03", level: "fault_enumeration", quick_runs: 3_500, thorough_runs: 15_000,
+    PropSpec { id: "C03", level: "fault_enumeration", quick_runs: 3_500, thorough_runs: 2_500,
         rule: "per seeded history (all policies, explicit persists, clock jumps): every crash boundary (as C02) under the process-crash model and under the power-loss model (durable view + seeded subset of unsynced effects: 3 masks per point in quick, 10 in thorough, incl. the extremes); oracle = persisted-superset PS(P) with P the last obliging call (create/delete any policy, persist, every mutating call under Always). Non-trivial: >=1 completed call after P was lost or in flight at the crash and the history had rolled over, or the point directly follows an unlink. Distinct: signature as C02 x loss model.",
         assumptions: &["power-loss model is POSIX-permissive: unsynced data lost per 512-byte sector, each unsynced create/unlink/set_len independently kept or lost", "fdatasync makes content and length of that file durable, directory fsync makes names durable"] },
-    PropSpec { id: "C04", level: "exploration", quick_runs: 3_500, thorough_runs: 10_000,
+    PropSpec { id: "C04", level: "exploration", quick_runs: 3_500, thorough_runs: 1_000,
         rule: "idle-queue histories (1-2 queues emptied or left idle while others roll and GC) under flush-per-call policies; model-independent high-water-mark monitor over every returned/observed/truncated-to position, live, across restarts and after recovery from sampled crash points (then an append on every surviving queue). Non-trivial: an append to a queue all of whose earlier entries lived in files that no longer exist, or a post-crash append. Distinct: signature as C02.",
         assumptions: &["process-crash model as C02"] },
-    PropSpec { id: "C12", level: "fault_enumeration", quick_runs: 3_500, thorough_runs: 8_000,
+    PropSpec { id: "C12", level: "fault_enumeration", quick_runs: 3_500, thorough_runs: 1_000,
         rule: "batch-heavy histories (2-50 records, totals 30 B .. > 2 files, alignment targeting); crash points inside every batch append (as C02; process crash, plus power loss under Always(FlushAndFsync)) and single-frame damage of every frame of batch entries (header and payload); oracle: recovered records of a batch are all, none, or all minus a leading part targeted by a truncate/delete. Non-trivial: batch spans >= 2 frames and the fault lands strictly inside its byte range. Distinct: signature as C02 / damaged field class.",
         assumptions: &["as C02 and C08"] },
     PropSpec { id: "C11", level: "fault_enumeration", quick_runs: 18_000, thorough_runs: 300_000,
